@@ -55,8 +55,17 @@ class Opacity(Logger, Citable):
         if wngrid is None:
             wngrid_filter = slice(None)
         else:
-            wngrid_filter = np.where((self.wavenumberGrid >= wngrid.min()) & (
-                self.wavenumberGrid <= wngrid.max()))[0]
+            # Native points spanning the requested range: from the last
+            # native point at or below its minimum to the first at or above
+            # its maximum, so that every requested point is interpolated
+            # between its two native neighbours (never clamped at the edge
+            # of the request)
+            native = self.wavenumberGrid
+            first = max(np.searchsorted(native, wngrid.min(),
+                                        side='right') - 1, 0)
+            last = min(np.searchsorted(native, wngrid.max(), side='left'),
+                       native.shape[0] - 1)
+            wngrid_filter = np.arange(first, last + 1)
 
         orig = self.compute_opacity(temperature, pressure, wngrid_filter)
 
